@@ -132,4 +132,170 @@ theorem decodeKeys_keyTexts (K : Consts) (hs : K.sortKeys = true) (E : EscLaws K
         simp only [Dec.bind]
         rw [decodeKeys_keyTexts K hs E F env S tys ks ts (fun x hx => hv x (List.mem_cons_of_mem _ hx)) h2]
 
+/-! ## the parameters of a call -/
+
+theorem lastOf_of_nodup : ∀ (q : List (Bytes × Bytes)) (hnd : (q.map (·.1)).Nodup) (k v : Bytes),
+    (k, v) ∈ q → lastOf k q = some v := by
+  intro q hnd k v hmem
+  unfold lastOf
+  have hnd' : ((q.reverse).map (·.1)).Nodup := by
+    rw [List.map_reverse]; exact (List.reverse_perm _).nodup_iff.2 hnd
+  have hmem' : (k, v) ∈ q.reverse := List.mem_reverse.2 hmem
+  generalize q.reverse = l at hnd' hmem'
+  induction l with
+  | nil => cases hmem'
+  | cons e rest ih =>
+    obtain ⟨k', v'⟩ := e
+    simp only [List.map_cons, List.nodup_cons] at hnd'
+    rcases List.mem_cons.1 hmem' with h | h
+    · cases h; simp [List.lookup]
+    · have hne : k ≠ k' := by
+        intro heq; subst heq
+        exact hnd'.1 (List.mem_map.2 ⟨(k, v), h, rfl⟩)
+      have : (k == k') = false := by simpa using hne
+      simp only [List.lookup, this]
+      exact ih hnd'.2 h
+
+theorem dedupNames_of_nodup : ∀ (q : List (Bytes × Bytes)), (q.map (·.1)).Nodup → dedupNames q = q.map (·.1)
+  | [], _ => rfl
+  | (k, v) :: rest, h => by
+    simp only [List.map_cons, List.nodup_cons] at h
+    have ih := dedupNames_of_nodup rest h.2
+    simp only [dedupNames, ih, List.map_cons]
+    have : (rest.map (·.1)).contains k = false := by
+      rw [List.contains_eq_mem]; simpa using h.1
+    rw [this]; simp
+
+/-- every listed name is a field whose parameter reads back: the entries come back in that order -/
+theorem decodeParamFields_all (env : Env) (fields : List Field) (q : List (Bytes × Bytes))
+    (hnd : (q.map (·.1)).Nodup) :
+    ∀ (ts : List (Bytes × Bytes × Value)),
+      (∀ t ∈ ts, (t.1, t.2.1) ∈ q ∧ ∃ f, findField fields t.1 = some f ∧ readParam env t.1 f.ty t.2.1 = .ok t.2.2) →
+      decodeParamFields env fields q (ts.map (·.1)) = .ok (ts.map (fun t => (t.1, t.2.2)))
+  | [], _ => rfl
+  | (k, raw, v) :: rest, h => by
+    obtain ⟨hmem, f, hf, hread⟩ := h (k, raw, v) (by simp)
+    simp only [List.map_cons, decodeParamFields, hf, lastOf_of_nodup q hnd k raw hmem]
+    simp only at hread
+    rw [hread]
+    simp only [Dec.bind]
+    rw [decodeParamFields_all env fields q hnd rest (fun t ht => h t (List.mem_cons_of_mem _ ht))]
+
+theorem insertByKey_mapSnd {α β : Type} (f : α → β) (e : Bytes × α) (l : List (Bytes × α)) :
+    insertByKey (e.1, f e.2) (l.map (fun x => (x.1, f x.2))) = (insertByKey e l).map (fun x => (x.1, f x.2)) := by
+  induction l with
+  | nil => simp [insertByKey]
+  | cons x xs ih =>
+    simp only [List.map_cons, insertByKey]
+    split <;> simp [ih]
+
+theorem sortByKey_mapSnd {α β : Type} (f : α → β) (l : List (Bytes × α)) :
+    sortByKey (l.map (fun x => (x.1, f x.2))) = (sortByKey l).map (fun x => (x.1, f x.2)) := by
+  induction l with
+  | nil => simp [sortByKey]
+  | cons x xs ih =>
+    simp only [List.map_cons, sortByKey, ih]
+    exact insertByKey_mapSnd f x (sortByKey xs)
+
+/-- **the parameters of a call come back**: the sorted name/value pairs the generated client writes
+for a record of parameters are decoded by the generated `DecodeQueryParams` to the caller's record
+(normalised), for every params record of every schema -/
+theorem decodeParams_paramPairs (K : Consts) (hs : K.sortKeys = true) (E : EscLaws K.queryEsc true) (F : FloatLaws)
+    (env : Env) (S : SchemaOK env) (n : TName) (incs : List TName) (own : List Field)
+    (hfind : env.find n = some (.record incs own)) (fs : List (Bytes × Value)) (hv : ValOK (.record fs))
+    (pairs : List (Bytes × Bytes)) (hp : paramPairs K env n (.record fs) = some pairs) :
+    decodeParams env n (sortByKey pairs) = .ok (norm env (encFuel + 1) (.ref n) (.record fs)) := by
+  unfold paramPairs at hp
+  simp only at hp
+  have hnorm : norm env (encFuel + 1) (.ref n) (.record fs) =
+      (match setFields (allFields env (includeFuel env) n) fs with
+        | some triples =>
+          .record (populateDefaults own (sortByKey (triples.map (fun x => (x.1, norm env encFuel x.2.1 x.2.2)))))
+        | none => .record fs) := by
+    simp only [norm, hfind]
+    cases setFields (allFields env (includeFuel env) n) fs <;> rfl
+  rw [hnorm]
+  unfold decodeParams
+  simp only
+  generalize hfields : allFields env (includeFuel env) n = fields at hp ⊢
+  cases hsf : setFields fields fs with
+  | none => simp [hsf] at hp
+  | some triples =>
+    simp only [hsf] at hp ⊢
+    cases hl : encodeTyped (fun _ => false) (fun k t v => encode (wcfg K env) encFuel [k] t v) triples with
+    | error e => simp [hl, toOpt] at hp
+    | ok kvs =>
+      simp only [hl, toOpt, Option.map_some, Option.some.injEq] at hp
+      subst hp
+      obtain ⟨hkvs, hall⟩ := encodeTyped_all _ triples kvs hl
+      obtain ⟨hsub, hmem, hreq⟩ := setFields_spec fields fs triples hsf
+      have hfnd : (fields.map (·.name)).Nodup := by
+        rw [← hfields]; exact S.fieldsNodup n incs own hfind
+      have hnd : (triples.map (·.1)).Nodup := hsub.nodup hfnd
+      simp only [ValOK] at hv
+      have hcfg : (ror2Ctx env K.queryEsc true E F S).cfg = wcfg K env := by
+        simp [RTCtx.cfg, ror2Ctx, wcfg, hs]
+      let g : Bytes × Ty × Value → Value := fun it => norm env encFuel it.2.1 it.2.2
+      -- the parameters in the order they are sorted into, with the values they read back to
+      let ts : List (Bytes × Bytes × Value) :=
+        (sortByKey kvs).map (fun e => (e.1, renderRor2 K.queryEsc e.2, valFor g triples e.1))
+      have hq : sortByKey (kvs.map (fun e => (e.1, renderRor2 K.queryEsc e.2))) = ts.map (fun t => (t.1, t.2.1)) := by
+        rw [sortByKey_mapSnd]
+        simp [ts, List.map_map, Function.comp_def]
+      have hkvsnd : KeysNodup kvs := by
+        unfold KeysNodup
+        rw [hkvs]
+        simpa [List.map_map, Function.comp_def] using hnd
+      have hkeys : ts.map (·.1) = (sortByKey kvs).map (·.1) := by
+        simp [ts, List.map_map, Function.comp_def]
+      have hqnd : ((ts.map (fun t => (t.1, t.2.1))).map (·.1)).Nodup := by
+        have : (ts.map (fun t => (t.1, t.2.1))).map (·.1) = (sortByKey kvs).map (·.1) := by
+          simp [ts, List.map_map, Function.comp_def]
+        rw [this]; exact keysNodup_sortByKey kvs hkvsnd
+      rw [hq, dedupNames_of_nodup _ hqnd]
+      have hnames : (ts.map (fun t => (t.1, t.2.1))).map (·.1) = ts.map (·.1) := by
+        simp [List.map_map, Function.comp_def]
+      rw [hnames]
+      have hgood : ∀ t ∈ ts, (t.1, t.2.1) ∈ ts.map (fun t => (t.1, t.2.1)) ∧
+          ∃ f, findField fields t.1 = some f ∧ readParam env t.1 f.ty t.2.1 = .ok t.2.2 := by
+        intro t ht
+        refine ⟨List.mem_map.2 ⟨t, ht, rfl⟩, ?_⟩
+        simp only [ts, List.mem_map] at ht
+        obtain ⟨e, he, rfl⟩ := ht
+        have he' : e ∈ kvs := (mem_sortByKey kvs e).1 he
+        rw [hkvs] at he'
+        simp only [List.mem_map] at he'
+        obtain ⟨it, hit, rfl⟩ := he'
+        obtain ⟨fld, hfld, hname, hty, hlk⟩ := hmem it hit
+        refine ⟨fld, ?_, ?_⟩
+        · simp only; rw [← hname]; exact findField_of_nodup fields hfnd fld hfld
+        · simp only [readParam]
+          rw [valFor_mem g triples hnd it hit, hty]
+          have hrc : queryRCfg env = ror2RcQ env true 0 true := rfl
+          rw [hrc, ror2_roundtrip_any env K.queryEsc true E F S 0 encFuel true [it.1] [.key it.1] it.2.1 it.2.2 _ _
+            (by omega) (lookup_valOK fs hv _ _ hlk) (by rw [hcfg]; exact hall it hit)]
+          simp [ofRes, g]
+      rw [decodeParamFields_all env fields _ hqnd ts hgood]
+      simp only [Dec.bind]
+      -- the values, in sorted key order
+      have hvals : ts.map (fun t => (t.1, t.2.2)) = sortByKey (triples.map (fun it => (it.1, g it))) := by
+        have h1 : ts.map (fun t => (t.1, t.2.2)) = (sortByKey kvs).map (fun e => (e.1, valFor g triples e.1)) := by
+          simp [ts, List.map_map, Function.comp_def]
+        rw [h1, ← sortByKey_mapVal (valFor g triples) kvs, hkvs]
+        congr 1
+        simp only [List.map_map, Function.comp_def]
+        apply List.map_congr_left
+        intro it hit
+        simp [valFor_mem g triples hnd it hit]
+      rw [hvals]
+      have hseen : ∀ fld ∈ fields, fld.optOrDefault = false →
+          fld.name ∈ (sortByKey (triples.map (fun it => (it.1, g it)))).map (·.1) := by
+        intro fld hf ho
+        have h1 := hreq fld hf ho
+        have h2 := ((keys_sortByKey_perm (triples.map (fun it => (it.1, g it)))).map (·.1)).mem_iff (a := fld.name)
+        rw [h2]
+        simpa [List.map_map, Function.comp_def] using h1
+      rw [remainingRequired_nil fields _ hseen]
+      simp [hfind, g]
+
 end Restli.E2E
